@@ -44,6 +44,21 @@ def keys_list(atom: str, mode="same", rows=False) -> ListV:
     return ListV(items=None, elem=key_tv(atom, rows), kind="list", order=((atom,), mode))
 
 
+def _last_element(v):
+    """The value a loop variable keeps after the loop: atoms naming the generic member `X[i]` now name the last one."""
+    ren = lambda a: a[:-3] + "[last]" if isinstance(a, str) and a.endswith("[i]") else a
+    if isinstance(v, TV) and any(isinstance(a, str) and a.endswith("[i]") for a in v.origin):
+        return v.but(origin=frozenset(ren(a) for a in v.origin), dtype=v.dtype)
+    if isinstance(v, ListV) and v.items is None and v.it is None:
+        o = v.order
+        if o is not None and any(isinstance(a, str) and a.endswith("[i]") for a in o[0]):
+            o = (tuple(ren(a) for a in o[0]),) + tuple(o[1:])
+        el = _last_element(v.elem) if v.elem is not None else None
+        if o is not v.order or el is not v.elem:
+            return replace(v, order=o, elem=el, head=None, tail=(), tail_elem=None)
+    return v
+
+
 def order_src(order):
     return tuple(order[0]) if order is not None else ()
 
@@ -128,6 +143,16 @@ class PipeOps(FullOps):
                     e_.vars[var] = e_.vars[var].but(poly=Poly.sym("total" + sym[4:]), note="prefix-sum-total")
                     break
                 e_ = e_.parent
+        # the loop variable outlives the loop holding the LAST element only: what is done with it afterwards concerns one
+        # member of the collection, not the collection
+        if isinstance(st, ast.For):
+            for nm in {n.id for n in ast.walk(st.target) if isinstance(n, ast.Name)}:
+                e_ = env
+                while e_ is not None:
+                    if nm in e_.vars:
+                        e_.vars[nm] = _last_element(e_.vars[nm])
+                        break
+                    e_ = e_.parent
         self._loop_exit_rest(env, lid, info, st)
 
     def _loop_exit_rest(self, env, lid, info, st):
@@ -283,6 +308,11 @@ class PipeOps(FullOps):
         return v
 
     def length(self, v, node):
+        if isinstance(v, ListV) and v.it is not None:
+            from .interp import AbsRaise
+
+            self.ev("raise_site", node, exc="TypeError", what="len() of a one-shot iterator")
+            raise AbsRaise("TypeError", node, self.interp.where(node)[1])
         if self.strict_atoms:
             if isinstance(v, ListV) and v.items is None and v.order is not None:
                 p = Poly()
@@ -792,6 +822,9 @@ class PipeOps(FullOps):
         def is_shape(x):
             return isinstance(x, ListV) and x.order is not None and x.order[0] and str(x.order[0][0]).startswith("shape:")
 
+        if isinstance(a, ListV) and a.items is None and a.order is not None and a.order[0] and a.order[0][0] == "concat-shape" and isinstance(b, ListV) and b.items is not None:
+            # (rows,) + key.shape + (n,): one more factor after the key's own axes
+            return replace(a, order=(tuple(a.order[0]) + tuple(self.shape_arg(x) for x in b.items), "same"))
         if is_shape(b) and isinstance(a, ListV) and a.items is not None:
             return ListV(items=None, elem=TV(kind="pyint"), kind="tuple", order=(("concat-shape",) + tuple(self.shape_arg(x) for x in a.items) + (self.shape_arg(b),), "same"))
         if isinstance(a, ListV) and isinstance(b, ListV) and a.items is not None and len(a.items) == 1 and self.const_int(a.items[0]) == 0 \
